@@ -28,7 +28,8 @@ def value_menu(rng):
     import icalendar
     from icalendar.prop import vUri, vCalAddress, vRecur, vGeo, vUTCOffset, vBinary, vBoolean, vFloat
     z = rng.choice(["Europe/Berlin", "America/New_York", "Asia/Tokyo", "Etc/UTC", "Zulu", "UCT", "Etc/GMT+5", "Africa/Monrovia"])
-    y = rng.randrange(1990, 2035)
+    # mostly ordinary years, sometimes a boundary of the four-digit year field (1, 99, 999, 1000, 9999)
+    y = rng.randrange(1990, 2035) if rng.random() < 0.85 else rng.choice([2, 7, 99, 814, 999, 1000, 1582, 9998])
     dt = datetime(y, rng.randrange(1, 13), rng.randrange(1, 28), rng.randrange(24), rng.randrange(60), rng.randrange(60))
     menu = [
         ("summary", rng.choice(["Meeting", "a;b,c", "line1\nline2", "é€😀", "", "x" * 100]), "text"),
